@@ -27,4 +27,11 @@ impl<T> MappedRange<T> {
     pub uninterp spec fn items(&self) -> Seq<T>;
     #[verifier::external_body]
     pub fn collect(self) -> (r: Vec<T>) ensures r@ == self.items() { unimplemented!() }
+    // Iterator::next on the mapped range: the first remaining item, if any (kept so that a change which takes
+    // only the FIRST item instead of collecting all is judged on its text; seed C12g)
+    #[verifier::external_body]
+    pub fn next(&mut self) -> (r: Option<T>)
+        ensures old(self).items().len() == 0 ==> r is None && final(self).items() == old(self).items(),
+                old(self).items().len() > 0 ==> r == Some(old(self).items()[0]) && final(self).items() == old(self).items().skip(1),
+    { unimplemented!() }
 }
